@@ -82,7 +82,7 @@ def gen_cases(seed, n, tab, which="model", first_id=0):
         pos = np.array(pos)
         if periodic:
             pos = pos + rs.randint(-1, 2, size=(na, 3)) @ cm
-        prs = rs.choice(na, size=(40, 2))
+        prs = np.random.RandomState(na).choice(na, size=(40, 2))            # one pair list per model topology (frames can be stacked)
         prs = [[int(a) + 1, int(b) + 1] for a, b in prs if a != b]
         if i % 3 == 0:
             sel = list(range(1, na + 1))
@@ -239,13 +239,38 @@ def _check(task):
         if len(case["sel"]) < n:
             sub = "index " + " ".join(str(int(i)) for i in sorted(sel))
             cs = md.compute_center_of_mass(t, select=sub)[0]
-            ms = np.array([MASS[top.atom(int(i)).element.symbol] for i in sorted(sel)], dtype=float)
+            ms = np.array([top.atom(int(i)).element.mass for i in sorted(sel)], dtype=float)      # (the 0.01 dalton rounding of the table matters for 4 atoms)
             if np.abs(cs - (ms[:, None] * P[sorted(sel)]).sum(0) / ms.sum() * G).max() > 3e-4:
                 probs.append("compute_center_of_mass(select=...) differs from the centre of mass of the selected atoms"); break
     dens = md.density(t, masses=w / 100.0)[0]
     if abs(dens - exp["mass"] / 100.0 / (exp["vol"] * G ** 3) * 1.6605387823355087) > 1e-4 * dens:
         probs.append("density differs from mass / volume")
     return (probs, overflow) if (probs or overflow) else None
+
+
+def _check_rdf_frames(task):
+    """several placements stacked into one multi-frame trajectory with a different cell volume per frame: the documented
+    normalisation is n_pairs * sum_f (1 / V_f) * V_shell, the histogram counts add up"""
+    import mdtraj as md
+    group = task
+    c0 = group[0][0]
+    top = model_topology(c0.get("which", "model"))
+    xyz = np.array([np.array(c["pos"], dtype=float) * G for c, _ in group]).astype(np.float32)
+    t = md.Trajectory(xyz, top)
+    # stretch the cells so that the volumes differ substantially from frame to frame (the placements stay where they are)
+    cells = [np.array(c["cell"], dtype=float) * (1 + 0.5 * k) for k, (c, _) in enumerate(group)]
+    t.unitcell_vectors = np.array(cells, dtype=np.float32) * G
+    prs = np.array(c0["rdfpairs"]) - 1
+    per = False            # plain distances: the counts of the single-frame evaluation (periodic=False cases only) stay valid
+    r, g = md.compute_rdf(t, prs, r_range=(0.5 * G, 10.5 * G), n_bins=10, periodic=per)
+    edges = (np.arange(11) + 0.5) * G
+    V = 4.0 / 3.0 * np.pi * (edges[1:] ** 3 - edges[:-1] ** 3)
+    vols = [abs(np.linalg.det(cm)) * G ** 3 for cm in cells]
+    norm = len(prs) * sum(1.0 / v for v in vols) * V
+    want = np.sum([e["rdf"] for _, e in group], axis=0)
+    if np.abs(g * norm - want).max() > 2e-3 * (1 + want.max()):
+        return "compute_rdf over %d frames with cell volumes %s: counts / normalisation differ (got %s expected %s)" % (len(group), np.round(vols, 2).tolist(), np.round(g * norm, 3).tolist(), want.tolist())
+    return None
 
 
 def run(ctx):
@@ -293,6 +318,15 @@ def run(ctx):
         ctx.machinery_failure("DescEval: a bookkeeping invariant of the specification failed")
     tasks = [(c, exp[c["id"]]) for c in cases]
     nfail = 0
+    # multi-frame RDF: non-periodic placements of one model stacked three at a time, each frame with its own cell volume
+    np_cases = [tk for tk in tasks if not tk[0]["periodic"] and tk[0].get("which", "model") == "model"]
+    groups = [np_cases[i:i + 3] for i in range(0, len(np_cases) - 2, 3)]
+    if not ctx.replay:
+        for gk, (st, val) in zip(groups, pool.run_tasks(_check_rdf_frames, groups, workers=8, timeout=300, batch=2)):
+            if st == "ok" and val is None:
+                continue
+            nfail += 1
+            ctx.discrepancy(None, val if st == "ok" else "%s: %s" % (st, str(val)[:200]), dict(case=gk[0][0], frames=[c["id"] for c, _ in gk]), cls="compute_rdf multi-frame normalisation")
     for tk, (st, val) in zip(tasks, pool.run_tasks(_check, tasks, workers=16, timeout=300, batch=4)):
         if st == "ok" and val is None:
             continue
